@@ -144,13 +144,22 @@ def run(M, rep, tier, only=None):
     else:
         paths = explore(cfg, f, "SampledDimension", None, 5000)
         rep.stats["sampled_rows"] = len(paths)
-        for offset in (None, 0.0, -3.0, 2.5, 10.0):
-            for interval in (0.5, 1.0, 2.0):
+        grid = [(offset, interval) for offset in (None, 0.0, -3.0, 2.5, 10.0) for interval in (0.5, 1.0, 2.0)]
+        # fractional intervals (positions of samples are not exactly representable: 0.3 / 0.1 = 2.9999999999999996) and a
+        # large offset / interval ratio (a relative tolerance must apply to the sample index, not to the raw position)
+        grid += [(None, 0.1), (0.0, 0.05), (1000.0, 0.01), (250000.0, 0.05), (-1000.0, 0.01)]
+        for offset, interval in grid:
                 o = offset or 0.0
                 pts = {"before": o - 1.3 * interval, "first": o, "on": o + 3 * interval,
                        "between-low": o + 3.3 * interval, "between-mid": o + 3.5 * interval,
                        "between-high": o + 3.7 * interval, "zero": 0.0, "just-before": o - 0.4 * interval,
                        "first-gap": o + 0.4 * interval}
+                if interval < 0.5:
+                    for k in (3, 7, 43, 57):
+                        pts["sample-%d" % k] = k * interval + o          # what position_at(k) returns
+                        pts["third-%d" % k] = o + (k + 1.0 / 3) * interval
+                    if abs(o) > 100:
+                        pts.pop("zero")                                  # far outside: before the first sample anyway
                 for pname, pos in pts.items():
                     for m in MODES:
                         te = mk_eval({"position": pos, "offset": offset, "sampling_interval": interval}, mode_val(m))
